@@ -198,6 +198,79 @@ def gen_none():
             yield f"{{p(1..3)}}. a :- {sign}#inf {o1} #max{{X : p(X)}}." + show, [""]
 
 
+def gen_cleanup2():
+    """second wave for cleanup: facts / choices / constraints next to the rule that could be simplified, anonymous
+    variables, constants, double negation, heads with several atoms, aggregates and conditional literals as users"""
+    show = " #show r/0. #show r/1. #show r/2."
+    defs = ["b(X) :- c(X).", "b(X) :- c(X), not d(X).", "b(X,Y) :- c(X), c(Y), X < Y.", "b(X) :- c(X). b(2).", "{b(X)} :- c(X). :- b(1), d(1).", "b(X) :- c(X), #sum{Y : d(Y)} > 1.", "b(X) :- c(X) : d(X); d(X).", "b(1..2).", "b(X) :- e(X,_).", "b(X) :- e(_,X), c(X)."]
+    uses = ["r(X) :- b(X), c(X).", "r(X) :- b(X), not not c(X).", "r :- b(_), c(_).", "r :- b(X), c(Y), X != Y.", "r(X) :- b(X), e(X,_).", "r(X) :- c(X), not b(X).", "r(X,Y) :- b(X,Y), c(X), c(Y).", "r(N) :- N = #count{X : b(X), c(X)}.", "r(X) :- c(X), b(Y) : c(Y), Y > X.", "r(X) :- b(X), c(X), #true.", "r(X) :- b(X), X = 1.", "r(X) :- b(X), c(X+1)."]
+    for d_ in defs:
+        for u in uses:
+            yield d_ + " " + u + show, ["c(1). d(1). e(1,2).", "c(1..2). d(2..3). e(2,1). e(3,3).", "d(1..2). e(1,1)."]
+
+
+def gen_projection2():
+    show = " #show h/0. #show h/1. #show h/2. #show a/2."
+    bodies = ["a(A,B), b(B,C), c(C,D), d(D)", "a(A,B), b(B,C), not c(C,A)", "a(A,B), b(B,C), C != A", "a(A,B), b(B,_), d(A)", "a(A,B), b(C,D), B < C", "a(A,B), b(B,C), N = #count{X : c(X,C)}, N > 0", "a(A,B), b(B,C), d(X) : c(X,C)", "a(A,B), b(B,C), not d(C), not d(B)", "a(A,B), b(B,C), c(C,D), D = A + 1", "a(A,B), 1 {b(B,C) : d(C)}"]
+    heads = ["h(A)", "h", "h(A) :- d(A);", ":~", "{h(A); h(A,A)}", "h(A+1)", "h(A) : d(A)"]
+    for b in bodies:
+        for h in heads:
+            if h == ":~":
+                stm = f":~ {b}. [1@1,A]"
+            elif h.endswith(";"):
+                stm = f"{h} {b}."
+            else:
+                stm = f"{h} :- {b}."
+            yield stm + " {a(1..2,1..2)}." + show, ["b(2,3). c(3,1). d(1). d(3).", "b(1,1). b(2,2). c(1,2). c(2,4). d(2). d(4).", "b(2,1). c(1,1). d(1). d(2)."]
+
+
+def gen_unused2():
+    show = " #show out/1. #show out/2."
+    mids = ["b(X,Y,Z) :- a(X,Y), a(Y,Z).", "b(X,Y) :- a(X,Y), a(Y,_).", "b(X,c) :- a(X,_).", "b(X,Y) :- a(X,Y). b(X,X) :- a(X,X).", "{b(X,Y)} :- a(X,Y).", "b(X,Y) ; d(X) :- a(X,Y).", "b(X,N) :- a(X,_), N = #count{Y : a(X,Y)}.", "b(X,Y) :- a(X,Y), not a(Y,X)."]
+    outs = ["out(X) :- b(X,_).", "out(X) :- b(X,_,_).", "out(X) :- b(X,Y), b(Y,_).", "out(N) :- N = #count{X : b(X,_)}.", "out(N) :- N = #sum{Y,X : b(X,Y)}.", "out(X) :- a(X,_), not b(X,_).", "out(X) :- b(X,_) : a(X,X); a(X,_).", "out(X,Y) :- b(X,Y), X < Y.", "out(X) :- b(X,c).", ":~ b(X,Y). [1@1,X] out(X) :- a(X,X)."]
+    for m_ in mids:
+        for o in outs:
+            yield "{a(1..2,1..2)}. " + m_ + " " + o + show, [""]
+
+
+def gen_minmax2():
+    show = " #show a/0. #show a/1. #show p/1. #show p/2."
+    for fn in ("#min", "#max"):
+        for op in OPS:
+            yield f"{{p(1..3)}}. {{r(2..4)}}. a :- V = {fn}{{X : p(X)}}, W = {fn}{{X : r(X)}}, V {op} W." + show, [""]
+            yield f"{{p(1..3)}}. a(T) :- T = 1..4, T {op} {fn}{{X : p(X); 2 : #true}}." + show, [""]
+            yield f"{{p(1..3)}}. a :- {fn}{{X : p(X)}} {op} 2, not p(3)." + show, [""]
+            yield f"{{p(1..3)}}. :~ V = {fn}{{X : p(X)}}, V {op} 2. [V@1]" + show, [""]
+            yield f"g(1..2). {{p(G,1..3)}} :- g(G). a(G) :- g(G), 2 {op} {fn}{{X : p(G,X)}}." + show, [""]
+            yield f"g(1..2). {{p(G,1..3)}} :- g(G). a(G) :- g(G), {fn}{{X : p(G,X)}} {op} {fn}{{X : p(H,X)}}, g(H), H != G." + show, [""]
+            yield f"{{p(1..3)}}. a(V) :- V = {fn}{{X*2 : p(X); X : p(X), X > 1}}, V {op} 4." + show, [""]
+            yield f"{{p(-1..1)}}. a :- {fn}{{X : p(X)}} {op} 0." + show, [""]
+            yield f"{{p(1..3)}}. a :- {fn}{{X,Y : p(X), p(Y), X < Y}} {op} 2." + show, [""]
+            yield f"{{p(1..3)}}. a(V) :- V = {fn}{{f(X) : p(X)}}." + show, [""]
+        # the value of a #min/#max in a sum element or an objective (telescoped by the trait)
+        for fs in ("#sum", "#sum+"):
+            for use in ("a(S) :- S = {fs}{{V,x : m(V)}}.", "a(S) :- S = {fs}{{V,x : m(V); 1,y : p(1)}}.", "a(S) :- S = {fs}{{V,x : m(V), V > -1}}.", "a(S) :- S = {fs}{{V,V : m(V)}}.", "a(S) :- S = {fs}{{-V,x : m(V)}}.", ":~ m(V). [V@1]", ":~ m(V), V > -1. [V@1]", ":~ m(V). [V@1,V]", ":~ m(V). [-V@1]", ":~ m(V). [V@1] :~ p(X). [X@1]"):
+                yield f"{{p(-2..1)}}. m(V) :- V = {fn}{{X : p(X)}}. " + use.format(fs=fs) + show, [""]
+            for use in (":~ m(G,V). [V@1]", ":~ m(G,V). [V@1,G]", "a(S) :- S = {fs}{{V : m(G,V)}}.", "a(S) :- S = {fs}{{V,G : m(G,V)}}.", "a(G) :- g(G), 0 < {fs}{{V : m(G,V)}}."):
+                yield f"g(1..2). {{p(G,-2..1)}} :- g(G). m(G,V) :- g(G), V = {fn}{{X : p(G,X)}}. " + use.format(fs=fs) + show, [""]
+
+
+def gen_sum_chains2():
+    show = " #show total/1. #show p/2. #show p/1. #show s/2."
+    for head in ("{{p(G,L) : v(L)}} 1 :- g(G).", "{{p(G,L) : v(L)}} = 1 :- g(G).", "1 {{p(G,L) : v(L)}} 1 :- g(G), q.", "{{p(G,L) : v(L), L > 0}} 1 :- g(G).", "{{p(G,L)}} 1 :- g(G), v(L).", "{{p(G,L) : v(L)}} 1 :- g(G). p(1,2) :- q."):
+        for use in ("total(S) :- S = #sum{{L,G : p(G,L)}}.", "total(S) :- S = #sum{{L*2,G : p(G,L)}}.", "total(S) :- S = #sum{{L,G : p(G,L), not q}}.", "total(S) :- S = #sum{{L,G,L : p(G,L)}}.", "total(S) :- S = #sum{{L,G : p(G,L); K,G,x : p(G,K), K > 1}}.", "s(G,S) :- g(G), S = #sum{{L : p(G,L)}}.", "total(S) :- S = #sum{{-L,G : p(G,L)}}.", "#minimize{{L@G,G : p(G,L)}}.", "#minimize{{L,G : p(G,L)}}. #minimize{{1,G : p(G,2)}}.", ":~ p(G,L), not q. [L@1,G]", "#maximize{{L,G : p(G,L)}}.", "total(S) :- S = #sum{{L,G : p(G,L)}}, S < 3."):
+            yield "g(1..2). v(-1..2). {q}. " + head.format() + " " + use.format() + show, [""]
+
+
+def gen_inline2():
+    show = " #show b/1. #show d/1. #show r/0. #show r/1. #show r/2."
+    helpers = ["a(X) :- X = #sum{V : b(V)}.", "a(X) :- X = #sum{V : b(V)}, d(_).", "a(X,Y) :- X = #sum{V : b(V)}, Y = #count{V : b(V)}.", "a(X) :- X = #sum{V : b(V)} = X.", "a(X) :- X = #sum{V : b(V)}, X > 0.", "a(X) :- 0 < #sum{V : b(V)} = X.", "a(Y) :- X = #sum{V : b(V)}, Y = X + 1.", "a(X) :- X = #sum{V : b(V)}. a(0) :- d(2).", "{a(X)} :- X = #sum{V : b(V)}.", "a(X) :- not X != #sum{V : b(V)}, d(X)."]
+    users = ["r(Y) :- a(X), Y = #sum{W : d(W)}, X < Y.", "r :- a(X), X > #count{W : d(W)}.", "r :- not a(2), 1 < #count{W : d(W)}.", "r(S) :- S = #sum{X,1 : a(X); X,2 : a(X)}.", "r(S) :- S = #sum{X : a(X)}, a(Y), Y > 1.", ":~ a(X). [X@1] :~ a(X). [1@2]", "r(S) :- S = #sum{X,Y : a(X,Y)}.", "r(S) :- S = #sum{X : a(X,Y), Y > 1}.", "r(X) :- a(X).", "#maximize{X : a(X)}."]
+    for h in helpers:
+        for u in users:
+            yield "{b(-1..2)}. {d(1..2)}. " + h + " " + u + show, [""]
+
+
 GENERATORS = {
     "none": gen_none,
     "inline": gen_inline,
@@ -209,10 +282,21 @@ GENERATORS = {
     "math": gen_math,
     "projection": gen_projection,
 }
+# second-wave schemas (run in addition to the first wave of the same trait)
+EXTRA = {
+    "cleanup": [gen_cleanup2],
+    "projection": [gen_projection2],
+    "unused": [gen_unused2],
+    "minmax_chains": [gen_minmax2],
+    "sum_chains": [gen_sum_chains2],
+    "inline": [gen_inline2],
+}
 
 
 def sample(trait, n, seed=0):
     """the first n programs of a deterministic shuffle of the trait's generated programs (n <= 0: all)"""
     progs = list(GENERATORS[trait]())
+    for g in EXTRA.get(trait, []):
+        progs.extend(g())
     random.Random(seed).shuffle(progs)
     return progs if n <= 0 else progs[:n]
